@@ -21,6 +21,7 @@ V12 the one-bit builder primitives (not, or, eq, mux, full adder, multiplier cel
 V11 both reference evaluators compute xor / and / not of exactly the wires the gate names
 V10 cross-reference: call arguments are lowered in the caller's scope before any parameter is bound (C14-E7)
 V14 cross-reference: the optimiser's rewrites and the sweep keep the function (C04 O1, O4 - O10)
+V15 cross-reference: range patterns compare with both bounds, compound patterns test each field's own bits (C08 M3 / M4)
 """
 from .. import mir
 from ..core import AnchorMissing, Finding, RuleResult
@@ -629,6 +630,27 @@ def rule_v8(ctx):
                                         start = ("const", a["ops"][0].get("val")) if a["ops"][0]["k"] == "const" else ("computed",)
                                         end = ("len",) if any(rr[0] == "call" and mir.last_seg(rr[2] or "") == "len" for (rr, pp) in body.trace_operand(a["ops"][1])) else ("computed",)
                                         sig = (start, end, revd)
+            # can the loop over the index bits stop before its iterator is exhausted (break / return inside the layer loop)?
+            early = None
+            from . import C06
+            for (r2, p2) in body.trace_operand(key):
+                if r2[0] not in ("range", "iter"):
+                    continue
+                # the loop driven by the iterator the selector position comes from
+                holders = []
+                for l9 in body.loops():
+                    for x in l9["body"]:
+                        tx = body.term(x)
+                        if tx and tx["k"] == "call" and mir.last_seg(mir.callee(tx) or "") == "next" and \
+                                any(r8[0] in ("call", "iter", "agg") and r8[1] == r2[1] for (r8, p8) in body.trace_operand(tx["args"][0])):
+                            holders.append((l9, x))
+                if not holders:
+                    continue
+                lp_, nx = min(holders, key=lambda h: len(h[0]["body"]))
+                tests = C06._next_test_blocks(body, nx, lp_["body"])
+                can_ret = C06._can_return(body)
+                early = any(not body.blocks[u]["cleanup"] and u not in tests and any(v not in lp_["body"] and v in can_ret for v in body.succs(u)) for u in lp_["body"])
+            sig = sig + (("early-exit", early),) if sig is not None else None
             layer_sigs.append((label, sig, t["sp"]))
         for b, t, cls in muxes:
             if cls in (["hi", "lo"], ["const", "lo"]):
@@ -833,6 +855,10 @@ def _tt_specs():
     }, tbl
 
 
+class _Disagree(Exception):
+    pass
+
+
 class _TT:
     def __init__(self, ctx, k):
         self.ctx = ctx
@@ -860,13 +886,16 @@ class _TT:
         key = (name, tuple(args))
         if key not in self.memo:
             outs = self.run(name, args, depth + 1)
-            # all exits must agree on the rows they are valid for; combine
+            # all exits must agree on the rows they are valid for (exits that depend on the state of the cache / the
+            # negation table are alternatives for the same rows); combine
             res = None
             for (vals, mask) in outs:
                 if res is None:
                     res = [0] * len(vals)
                     seen = 0
                 for i, v in enumerate(vals):
+                    if (res[i] ^ v) & mask & seen:
+                        raise _Disagree(name)
                     res[i] |= v & mask & ~seen
                 seen |= mask
             if res is None or seen != self.full:
@@ -905,7 +934,20 @@ class _TT:
                     if isinstance(l, int) and isinstance(r, int):
                         val = ("cmp", rv["op"], l, r)
                 elif rv["k"] == "ref":
-                    val = ("ref",)
+                    rp = rv["place"]
+                    if not rp["p"]:
+                        val = ("ref", rp["l"])
+                    elif [e["k"] for e in rp["p"]] == ["deref"]:
+                        val = env.get(rp["l"])      # reborrow
+                    else:
+                        names = [e.get("name") for e in rp["p"] if e["k"] == "field"]
+                        val = ("self-field", names[-1] if names else None)
+                elif rv["k"] == "aggregate" and rv.get("adt") == "circuit::BuilderGate":
+                    ops_ = [self.operand(env, o) for o in rv["ops"]]
+                    if all(isinstance(o, int) for o in ops_):
+                        val = ("gate", rv.get("variant"), ops_[0], ops_[1])
+                elif rv["k"] == "discriminant":
+                    val = ("disc", self.place(env, rv["place"]))
                 if not d["p"]:
                     env[d["l"]] = val
             t = blk["term"]
@@ -916,6 +958,11 @@ class _TT:
                 outs.append(((v,) if isinstance(v, int) else tuple(v), mask))
             elif t["k"] == "switch":
                 c = self.operand(env, t["discr"])
+                if isinstance(c, tuple) and c and c[0] == "disc" and isinstance(c[1], tuple) and c[1] and c[1][0] == "opt":
+                    some = c[1][1] is not None
+                    tg = [x for v, x in t["targets"] if v == (1 if some else 0)]
+                    work.append(((tg[0] if tg else t["otherwise"]), env, mask))
+                    continue
                 if not (isinstance(c, tuple) and c and c[0] == "cmp"):
                     raise AnchorMissing("V12: %s branches on something that is not a wire comparison" % fid)
                 _, op, l, r = c
@@ -932,6 +979,28 @@ class _TT:
                     work.append((x, env, mask))
             elif t["k"] == "call":
                 name = mir.callee(t) or ""
+                seg = mir.last_seg(name)
+                # bookkeeping look-ups: both answers are explored; a hit yields the wire the table stands for
+                # (`negated[x]` computes NOT x - C04-O6; a cached And / Xor gate computes that gate - C15-U2)
+                if seg == "get" and t["args"] and self.operand(env, t["args"][0]) == ("self-field", "negated"):
+                    k_ = self.deref(env, self.operand(env, t["args"][1]))
+                    if not isinstance(k_, int):
+                        raise AnchorMissing("V12: %s looks a non-wire up in `negated`" % fid)
+                    for ans in (("opt", None), ("opt", ~k_ & self.full)):
+                        e2 = dict(env)
+                        e2[t["dest"]["l"]] = ans
+                        work.append((t["target"], e2, mask))
+                    continue
+                if seg == "get_cached":
+                    g_ = self.deref(env, self.operand(env, t["args"][1]))
+                    if not (isinstance(g_, tuple) and g_ and g_[0] == "gate"):
+                        raise AnchorMissing("V12: %s looks something up in the gate cache that is not a gate built from wires" % fid)
+                    hit = (g_[2] & g_[3]) if g_[1] == "And" else (g_[2] ^ g_[3])
+                    for ans in (("opt", None), ("opt", hit)):
+                        e2 = dict(env)
+                        e2[t["dest"]["l"]] = ans
+                        work.append((t["target"], e2, mask))
+                    continue
                 if not name.startswith(BUILDER):
                     raise AnchorMissing("V12: %s calls %s" % (fid, name))
                 cargs = [self.operand(env, a) for a in t["args"][1:]]
@@ -949,7 +1018,35 @@ class _TT:
                 raise AnchorMissing("V12: %s: terminator %s" % (fid, t["k"]))
         return outs
 
+    def deref(self, env, v):
+        for _ in range(4):
+            if isinstance(v, tuple) and v and v[0] == "ref":
+                v = env.get(v[1])
+            else:
+                break
+        return v
+
+    def place(self, env, pl):
+        v = env.get(pl["l"])
+        for e in pl["p"]:
+            if e["k"] == "deref":
+                v = self.deref(env, v)
+            elif e["k"] == "downcast":
+                continue
+            elif e["k"] == "field":
+                if isinstance(v, tuple) and v and v[0] == "opt":
+                    v = v[1]
+                elif isinstance(v, tuple) and v and not isinstance(v[0], str):
+                    v = v[e["i"]]
+                else:
+                    return None
+            else:
+                return None
+        return v
+
     def operand(self, env, op):
+        if op["k"] in ("copy", "move") and op["place"]["p"]:
+            return self.place(env, op["place"])
         if op["k"] == "const":
             v = op.get("val")
             if v == 0:
@@ -978,7 +1075,13 @@ def rule_v12(ctx):
             raise AnchorMissing("V12: %s not found" % fid)
         tt = _TT(ctx, k)
         args = [tt.var(i) for i in range(k)]
-        got = tt.call(fid, args, 0)
+        try:
+            got = tt.call(fid, args, 0)
+        except _Disagree as e:
+            res.bad(Finding("V12", fid, "%s computes different functions depending on what is cached" % seg,
+                            "two exits of %s (taken depending on the contents of the gate cache / the negation table) return different Boolean functions of the same operands: "
+                            "at least one of its shortcuts is wrong" % mir.last_seg(str(e)), ctx.fns[fid]["sp"]))
+            continue
         want = []
         n_out = len(fn(*([0] * k)))
         for j in range(n_out):
@@ -1019,5 +1122,20 @@ def rule_v14(ctx):
     return res
 
 
+def rule_v15(ctx):
+    """Cross-reference: patterns test what they say (C08 M3, M4) - a wrong match bit selects the wrong arm's value."""
+    from . import C08
+    res = RuleResult("V15", "range patterns compare with both bounds; compound patterns test each field's own bits (cross-reference to C08 M3 / M4)")
+    ok = True
+    for fn in (C08.rule_m3, C08.rule_m4):
+        r = fn(ctx)
+        for x in r.findings:
+            res.bad(Finding("V15", x.fn, x.site, x.message, x.span))
+            ok = False
+    if ok:
+        res.ok({"verdict": "C08 M3 / M4 hold"})
+    return res
+
+
 def run(ctx):
-    return ctx.run_rules([rule_v13, rule_v12, rule_v11, rule_v1, rule_v2, rule_v3, rule_v4, rule_v5, rule_v6, rule_v7, rule_v8, rule_v9, rule_v10, rule_v14])
+    return ctx.run_rules([rule_v13, rule_v12, rule_v11, rule_v1, rule_v2, rule_v3, rule_v4, rule_v5, rule_v6, rule_v7, rule_v8, rule_v9, rule_v10, rule_v14, rule_v15])
